@@ -250,6 +250,14 @@ class Check:
             key = refs.ref_key(op, hm)
             ref = self.refs.refs.get(key) if key is not None else None
             mms = compare.compare_op(op, ev, ref, self.prop)
+            if op.get("trace") == "count" and op["op"] == "single" and ev.get("outcome") == "ok" and "events" in ev:
+                cref = self.refs.refs.get(("count", op["c"]))
+                if cref is not None and cref.get("outcome") == "ok" and cref.get("events"):
+                    self.stats["step_budget_checked"] = self.stats.get("step_budget_checked", 0) + 1
+                    ratio = ev["events"] / float(cref["events"])
+                    self.stats["step_budget_max_ratio"] = max(self.stats.get("step_budget_max_ratio", 0.0), round(ratio, 3))
+                    if ev["events"] > 10 * cref["events"] + 1000:
+                        mms.append(compare.mm("slow_after_fault", f"<= 10 x {cref['events']} call events", ev["events"]))
             if op["op"] == "group" and ev.get("outcome") == "ok" and not compare.own_outcome_exempt(op, ev):
                 for fkey, path in sorted(op["paths"].items()):
                     bref = self.refs.refs.get(("build", op["cmap"][fkey.split("/")[0]], tuple(path)))
@@ -520,6 +528,11 @@ class Check:
                 "rerun_of_old_tealer_after_other_work": st["probe_rerun_after_other_work"],
             },
             "traced_call_events": st["traced_call_events"],
+            "bounded_progress": {
+                "post_fault_operations_under_step_counter": st.get("step_budget_checked", 0),
+                "max_ratio_to_reference_step_count": st.get("step_budget_max_ratio", 0.0),
+                "budget": "10 x reference call events",
+            },
             "simulated_time_note": "tealer has no clock; traced call events of faulted/enumeration operations are the simulator's step count",
             "components": {
                 "real": "tealer parser, CFG builder, construct_function, four dataflow analyses, all detectors, printers, regex, __main__.main/handle_output",
